@@ -28,17 +28,26 @@ def _xml_text(text, features, rng=None):
     i = 0
     n = len(text)
     span_at = None
+    span_end = None
     if "spans" in features and n >= 2:
-        k = n // 2
-        if text[k - 1] not in " \t\n" and text[k] not in " \t\n":
-            span_at = k
+        # the span starts at the first and ends at the last boundary between two non-white-space characters (or at the
+        # end of the text), so that it regularly encloses blanks, tabs and line breaks written as ODF elements
+        boundaries = [k for k in range(1, n) if text[k - 1] not in " \t\n" and text[k] not in " \t\n"]
+        if boundaries:
+            span_at = boundaries[0]
+            span_end = boundaries[-1] if len(boundaries) > 1 and boundaries[-1] > span_at else n
+        elif text[0] not in " \t\n" and text[-1] not in " \t\n":
+            span_at, span_end = 0, n
     opened = False
 
     def s_element(count):
         return '<text:s text:c="%d"/>' % count if count > 1 else "<text:s/>"
 
     while i < n:
-        if span_at is not None and i == span_at:
+        if opened and i == span_end:
+            out.append("</text:span>")
+            opened = False
+        if span_at is not None and i == span_at and not opened and span_end != span_at:
             out.append('<text:span text:style-name="T1">')
             opened = True
         c = text[i]
@@ -136,14 +145,14 @@ def ods_content(sheets, features=(), encoding="UTF-8", cell_repeat_attr=None, ro
     return "".join(parts)
 
 
-def write_ods(path, sheets, features=(), encoding="UTF-8", **kw):
+def write_ods(path, sheets, features=(), encoding="UTF-8", stored=False, **kw):
     xml = ods_content(sheets, features, encoding, **kw)
     data = xml.encode({"UTF-8": "utf-8", "UTF-16": "utf-16", "ISO-8859-1": "latin-1"}.get(encoding, encoding))
-    write_ods_raw(path, data)
+    write_ods_raw(path, data, stored=stored)
     return data
 
 
-def write_ods_raw(path, content_xml_bytes, with_content=True):
+def write_ods_raw(path, content_xml_bytes, with_content=True, stored=False):
     def entry(name, compress=True):
         # fixed timestamps: the archive's bytes depend on the contents only, so damaged-container cases replay exactly
         info = zipfile.ZipInfo(name, date_time=(2020, 1, 1, 0, 0, 0))
@@ -153,7 +162,7 @@ def write_ods_raw(path, content_xml_bytes, with_content=True):
     with zipfile.ZipFile(path, "w", zipfile.ZIP_DEFLATED) as z:
         z.writestr(entry("mimetype", compress=False), "application/vnd.oasis.opendocument.spreadsheet")
         if with_content:
-            z.writestr(entry("content.xml"), content_xml_bytes)
+            z.writestr(entry("content.xml", compress=not stored), content_xml_bytes)
         z.writestr(entry("META-INF/manifest.xml"), '<?xml version="1.0"?><manifest:manifest xmlns:manifest="urn:oasis:names:tc:opendocument:xmlns:manifest:1.0"/>')
 
 
